@@ -12,7 +12,7 @@ table is explicit - no transitive closure - and every line says why the clause i
 
 ORDER = ["R01.1", "R01.2", "R01.3", "R01.4", "R01.5"]
 UNARY = ["R01.7", "R01.8"]
-CONV = ["R03.2", "R03.3", "R03.4", "R03.5"]
+CONV = ["R03.2", "R03.3", "R03.4", "R03.5", "R03.6"]
 NAMES = ["R04.2", "R04.3", "R04.4", "R04.5"]
 
 IMPORTS = {
@@ -21,7 +21,7 @@ IMPORTS = {
             ("c02", None, "parsing folds constant sub-expressions before anything is evaluated")],
     "C02": [("c01", ORDER + UNARY, "folding visits the operators in the application order and applies the literals' unary compositions"),
             ("c14", None, "the flat pre-pass and the flat -> deep converter reduce through the number tracker"),
-            ("c03", ["R03.4", "R03.5"], "a flat expression reaches the (always folding) deep form through the per-node converter")],
+            ("c03", ["R03.4", "R03.5", "R03.6"], "a flat expression reaches the (always folding) deep form through the per-node converter")],
     "C03": [("c01", ORDER + UNARY, "both forms must apply the operators in the same order"),
             ("c02", None, "the deep form always folds: the forms agree only if folding is invisible"),
             ("c14", None, "the converter and both evaluators reduce through the number tracker"),
@@ -31,12 +31,14 @@ IMPORTS = {
             ("c11", ["R11.2"], "the list rebuilt by substitution is sorted and duplicate-free"),
             ("c09", ["R09.3"], "a derivative keeps the names of its antiderivative")],
     "C05": [("c10", None, "the rules build their results with the operator-application machinery"),
-            ("c03", ["R03.4"], "a flat expression is differentiated as its deep conversion")],
+            ("c03", ["R03.4", "R03.6"], "a flat expression is differentiated as its deep conversion"),
+            ("c18", ["R18.3"], "how the rules' numeric constants enter the data type")],
     "C06": [("c17", None, "the value-typed operators are reachable from parse_val / eval"),
             ("c16", ["R16.3"], "unchecked integer arithmetic panics in debug builds"),
             ("c01", ["R01.5"], "the sort key must not overflow for any nesting depth"),
             ("c14", ["R14.3"], "an undersized tracker indexes out of bounds"),
-            ("c07", ["R07.3", "R07.5"], "the builders index the token list unchecked: they may only run past the token check")],
+            ("c07", ["R07.3", "R07.5"], "the builders index the token list unchecked: they may only run past the token check"),
+            ("c13", ["R13.7"], "the tokenizer slices the text at the offset the boundary helper returns")],
     "C07": [("c13", None, "what the tokenizer accepts as a token decides what is malformed"),
             ("c06", ["R06.1", "R06.2", "R06.3"], "a panic or a hang is not an error report")],
     "C08": [("c06", ["R06.1"], "a panic on a nested call is not an accepted call"),
@@ -45,16 +47,17 @@ IMPORTS = {
             ("c03", CONV, "a flat expression is differentiated through the deep form and back: the converters must keep the list")],
     "C10": [("c03", CONV, "operators are applied to flat expressions through the deep form and back"),
             ("c04", NAMES, "the result lists the union of the names and re-indexes both operands"),
-            ("c06", ["R06.1"], "a panic in the application machinery is not a result")],
+            ("c06", ["R06.1"], "a panic in the application machinery is not a result"),
+            ("c16", ["R16.6"], "the shortcuts decide by T: PartialEq (is_zero / is_one): for the value type equality has to be exact")],
     "C11": [("c03", CONV, "flat expressions are substituted through the deep form and back"),
             ("c04", NAMES, "the substituted expression's list is rebuilt and re-indexed")],
     "C12": [("c05", ["R05.7"], "the printed names have to stay aligned with the functions they name"),
-            ("c03", ["R03.3", "R03.4", "R03.5"], "printing a flat expression prints its deep conversion"),
+            ("c03", ["R03.3", "R03.4", "R03.5", "R03.6"], "printing a flat expression prints its deep conversion"),
             ("c10", ["R10.3"], "the printed operator is looked up by name"),
             ("c01", ["R01.7"], "the printed order of a unary composition is the applied order")],
     "C13": [("c06", ["R06.1"], "a panic while matching a token is not a lexical decision"),
             ("c19", ["R19.1"], "the default operator names and their roles (unary / binary) are part of the lexical rules"),
-            ("c07", ["R07.4", "R07.6"], "nothing-matches is an error; no text is skipped")],
+            ("c07", ["R07.4", "R07.6", "R07.7"], "nothing-matches is an error; no text is skipped; the convenience functions tokenize like the parsers")],
     "C14": [("c06", ["R06.1"], "shifts and index arithmetic of the tracker must not panic"),
             ("c15", None, "the consuming evaluators keep their own occurrence bookkeeping next to the tracker")],
     "C15": [("c04", ["R04.1"], "both evaluation styles check the arity before any value is used")],
